@@ -1178,6 +1178,70 @@ pub fn nest_case(idx: u64) -> (String, Cfg, String) {
 }
 
 // ---------------------------------------------------------------------------------------------
+// G-tab: table / grid calls, enumerated: every sequence (length ≤ 5) of positional arguments over an
+// alphabet of cells, headers, footers, lines, spans and spreads × column specifications × where the
+// named arguments stand × trailing comma × call × configurations.  (Rows that are incomplete when a
+// header or footer arrives, cells after a footer, spans … — shapes the fixed table cases never had.)
+// ---------------------------------------------------------------------------------------------
+
+pub const TAB_ITEMS: &[&str] = &[
+    "[a]", "table.header([h], [i])", "table.footer([f])", "table.hline()", "table.cell(colspan: 2)[s]", "..rest",
+];
+pub const TAB_COLS: &[&str] = &["1", "2", "3", "(1fr, auto)"];
+const TAB_CFGS: usize = 4;
+pub const TAB_NAMED: &[&str] = &["first", "last", "split", "none"];
+pub const TAB_CALLS: &[(&str, &str)] = &[("#table(", ")"), ("#{\n  grid(", ")\n}")];
+const TAB_MAXLEN: usize = 4;
+
+fn tab_seqs() -> u64 {
+    let a = TAB_ITEMS.len() as u64;
+    let mut n = 0u64;
+    let mut p = 1u64;
+    for _ in 0..=TAB_MAXLEN { n += p; p *= a; }
+    n
+}
+
+pub fn tab_universe() -> u64 {
+    tab_seqs() * (TAB_COLS.len() * TAB_NAMED.len() * 2 * TAB_CALLS.len() * TAB_CFGS) as u64
+}
+
+pub fn tab_case(idx: u64) -> (String, Cfg, String) {
+    let k = 2 * (idx % TAB_CFGS as u64) as usize;
+    let rest = idx / TAB_CFGS as u64;
+    let call = (rest % TAB_CALLS.len() as u64) as usize;
+    let rest = rest / TAB_CALLS.len() as u64;
+    let trailing = rest % 2 == 1;
+    let rest = rest / 2;
+    let named = (rest % TAB_NAMED.len() as u64) as usize;
+    let rest = rest / TAB_NAMED.len() as u64;
+    let cols = (rest % TAB_COLS.len() as u64) as usize;
+    let mut seq = (rest / TAB_COLS.len() as u64) % tab_seqs();
+    // decode the sequence number: lengths 0, 1, 2, … in turn
+    let a = TAB_ITEMS.len() as u64;
+    let mut len = 0usize;
+    let mut block = 1u64;
+    while seq >= block { seq -= block; block *= a; len += 1; }
+    let mut items: Vec<&str> = Vec::new();
+    for _ in 0..len { items.push(TAB_ITEMS[(seq % a) as usize]); seq /= a; }
+    let colarg = format!("columns: {}", TAB_COLS[cols]);
+    let mut parts: Vec<String> = Vec::new();
+    match TAB_NAMED[named] {
+        "first" => { parts.push(colarg); parts.push("stroke: none".into()); parts.extend(items.iter().map(|s| s.to_string())); }
+        "last" => { parts.extend(items.iter().map(|s| s.to_string())); parts.push(colarg); }
+        "split" => { parts.push(colarg); parts.extend(items.iter().map(|s| s.to_string())); parts.push("gutter: 1pt".into()); }
+        _ => { parts.extend(items.iter().map(|s| s.to_string())); }
+    }
+    let mut body = parts.join(", ");
+    if trailing && !parts.is_empty() { body.push(','); }
+    let (open, close) = TAB_CALLS[call];
+    let open = open.replace("\\n", "\n");
+    let close = close.replace("\\n", "\n");
+    let s = format!("{}{}{}\n", open, body, close);
+    let plain_len = s.len();
+    (s, exh_cfg(k, plain_len), format!("cols{} named{} trailing{} call{} len{} cfg{}", cols, named, trailing, call, len, k))
+}
+
+// ---------------------------------------------------------------------------------------------
 // G-mal: malformed and hostile inputs (C05, C13 refusal, C16)
 // ---------------------------------------------------------------------------------------------
 
